@@ -46,6 +46,15 @@ func c19Cases(timeout float64) []c19Case {
 		{Mode: "exit3-no-output", script: "exit 3", mustErr: true},
 		{Mode: "killed-by-signal", script: "kill -9 $$", mustErr: true},
 		{Mode: "not-executable", mustErr: true},
+		{Mode: "missing", mustErr: true},
+		{Mode: "dangling-symlink", mustErr: true},
+		{Mode: "symlink-loop", mustErr: true},
+		{Mode: "symlink-to-itself", mustErr: true},
+		{Mode: "parent-is-a-file", mustErr: true},
+		{Mode: "is-a-directory", mustErr: true},
+		{Mode: "name-too-long", mustErr: true},
+		{Mode: "path-too-long", mustErr: true},
+		{Mode: "unsearchable-parent-symlink", mustErr: true},
 		{Mode: "bad-exec-format", mustErr: true},
 		{Mode: "missing-interpreter", mustErr: true},
 		{Mode: "vanishing", mayErr: true, mayOutput: true, wantOut: "7"},
@@ -62,10 +71,44 @@ func c19Cases(timeout float64) []c19Case {
 	}
 }
 
+// c19Path: the configured exec path of case n
+func c19Path(dir string, c *c19Case, n int) string {
+	base := filepath.Join(dir, fmt.Sprintf("cmd-%d.sh", n))
+	switch c.Mode {
+	case "parent-is-a-file":
+		return filepath.Join(base, "run.sh")
+	case "name-too-long":
+		return filepath.Join(dir, fmt.Sprintf("cmd-%d-%s.sh", n, strings.Repeat("x", 300)))
+	case "path-too-long":
+		return filepath.Join(dir, fmt.Sprintf("cmd-%d", n), strings.Repeat(strings.Repeat("d", 200)+"/", 25)+"run.sh")
+	}
+	return base
+}
+
 func c19Build(dir string, c *c19Case, n int) string {
-	path := filepath.Join(dir, fmt.Sprintf("cmd-%d.sh", n))
+	path := c19Path(dir, c, n)
 	_ = os.Remove(path)
 	switch c.Mode {
+	case "missing", "name-too-long", "path-too-long":
+		// nothing there
+	case "dangling-symlink":
+		_ = os.Symlink(filepath.Join(dir, fmt.Sprintf("nowhere-%d", n)), path)
+	case "symlink-loop":
+		other := path + ".peer"
+		_ = os.Remove(other)
+		_ = os.Symlink(other, path)
+		_ = os.Symlink(path, other)
+	case "symlink-to-itself":
+		_ = os.Symlink(path, path)
+	case "parent-is-a-file":
+		_ = os.WriteFile(filepath.Dir(path), []byte("#!/bin/sh\necho 1\n"), 0755)
+	case "is-a-directory":
+		_ = os.Mkdir(path, 0755)
+	case "unsearchable-parent-symlink":
+		// a symlink into a directory that does not exist any more
+		d := path + ".d"
+		_ = os.MkdirAll(d, 0755)
+		_ = os.Symlink(filepath.Join(d, "gone", "run.sh"), path)
 	case "not-executable":
 		_ = os.WriteFile(path, []byte("#!/bin/sh\necho 1\n"), 0644)
 	case "bad-exec-format":
@@ -139,7 +182,7 @@ func c19CallInner(via string, path string, timeout time.Duration) c19Result {
 
 func c19Check(ctx *Ctx, dir string, c c19Case, n int, mu *sync.Mutex) {
 	timeout := time.Duration(c.TimeoutS * float64(time.Second))
-	path := filepath.Join(dir, fmt.Sprintf("cmd-%d.sh", n)) // written by c19Build before any command was started
+	path := c19Path(dir, &c, n) // written by c19Build before any command was started
 	var stopVanish chan struct{}
 	if c.Mode == "vanishing" {
 		// remove and re-create the file as fast as possible while the call runs
@@ -253,7 +296,8 @@ func init() {
 		for _, via := range []string{"CmdSensor", "CmdFan.GetRpm", "CmdFan.GetPwm", "CmdFan.SetPwm"} {
 			for _, c := range c19Cases(2) {
 				switch c.Mode {
-				case "not-executable", "missing-interpreter", "exit1-with-output", "grandchild-holds-stdout", "sleep-beyond-deadline-child", "non-numeric-output", "empty-output", "ok", "text-file-busy":
+				case "not-executable", "missing-interpreter", "exit1-with-output", "grandchild-holds-stdout", "sleep-beyond-deadline-child", "non-numeric-output", "empty-output", "ok", "text-file-busy",
+					"missing", "symlink-loop", "parent-is-a-file", "name-too-long", "is-a-directory", "dangling-symlink":
 				default:
 					if !ctx.Thorough() {
 						continue
